@@ -24,6 +24,7 @@ type storedWitness struct {
 	Name        string                 `json:"name"`
 	Obligations string                 `json:"obligations"` // regexp on obligation names this witness is relevant for
 	Witness     map[string]interface{} `json:"witness"`
+	Driver      *driverInfo            `json:"driver,omitempty"` // overrides the property's default driver
 }
 
 type replayCfg struct {
@@ -70,7 +71,7 @@ func RunDriver(repoDir, verifDir, prop string, cfg *replayCfg, witness map[strin
 	cmd.Env = append(os.Environ(), "GOFLAGS=-mod=mod", "GOPROXY=off", "GOSUMDB=off", "GOTOOLCHAIN=local", "VERIF_WITNESS="+wf.Name())
 	out, _ := cmd.CombinedOutput()
 	s := string(out)
-	return strings.Contains(s, "VERIF-REPLAY-CONFIRMED"), trunc(s, 3000), "go " + strings.Join(args, " ")
+	return strings.Contains(s, "VERIF-REPLAY-CONFIRMED") || (cfg.Driver.Race && strings.Contains(s, "DATA RACE")), trunc(s, 3000), "go " + strings.Join(args, " ")
 }
 
 // ReplayFile re-runs a stored replay file: the witness recorded in it (from the
@@ -102,10 +103,11 @@ func ReplayFile(repoDir, verifDir, path string, verbose bool) bool {
 	type cand struct {
 		name string
 		w    map[string]interface{}
+		drv  *driverInfo
 	}
 	var cands []cand
 	if w, ok := m["witness"].(map[string]interface{}); ok && len(w) > 0 {
-		cands = append(cands, cand{"solver-model", w})
+		cands = append(cands, cand{"solver-model", w, nil})
 	}
 	for _, sw := range cfg.Witnesses {
 		if sw.Obligations != "" {
@@ -113,11 +115,15 @@ func ReplayFile(repoDir, verifDir, path string, verbose bool) bool {
 				continue
 			}
 		}
-		cands = append(cands, cand{"stored:" + sw.Name, sw.Witness})
+		cands = append(cands, cand{"stored:" + sw.Name, sw.Witness, sw.Driver})
 	}
 	var tried []string
 	for _, c := range cands {
-		ok, out, cmd := RunDriver(repoDir, verifDir, prop, cfg, c.w)
+		cfgc := *cfg
+		if c.drv != nil {
+			cfgc.Driver = *c.drv
+		}
+		ok, out, cmd := RunDriver(repoDir, verifDir, prop, &cfgc, c.w)
 		tried = append(tried, c.name)
 		if verbose {
 			fmt.Printf("replay witness %s: confirmed=%v\n%s\n", c.name, ok, out)
